@@ -15,7 +15,7 @@ m = {
  },
  "engines": [
   {"name": "verus-contracts", "path": "/verif/vf", "serves_properties": [c['id'] for c in claims if c.get('claimed')],
-   "kind_free_text": "contract-based deductive verification: functions extracted mechanically from /repo on every run (vf/extract.py, rules D1-D11 in DESIGN.md 4.2), contracts/invariants/lemmas from /verif/units, /verif/prelude, /verif/lemmas inserted, discharged by Verus 0.2026.09.13 + z3"},
+   "kind_free_text": "contract-based deductive verification: functions extracted mechanically from /repo on every run (vf/extract.py, rewrite rules in DESIGN.md section 4), contracts/invariants/lemmas from /verif/units, /verif/prelude, /verif/lemmas inserted, discharged by Verus 0.2026.09.13 + z3"},
   {"name": "replay-witness", "path": "/verif/replay", "serves_properties": [c['id'] for c in claims if c.get('claimed')],
    "kind_free_text": "concrete witness inputs executed against the real crate (hooks on) to turn a failed obligation into a failing input; never counted as proof"}
  ],
